@@ -67,7 +67,9 @@ type Rule struct {
 }
 
 func (r *Rule) Prepare() {
-	if len(r.Values) == 0 {
+	// a rule is shared by the processors of a pipeline and each of them
+	// prepares it: do it once, the values are already lower-cased
+	if r.prepared || len(r.Values) == 0 {
 		return
 	}
 
